@@ -74,6 +74,9 @@ structure Const where
   rtable : String := ""
   rcols : List String := []
   isTablePk : Bool := false
+  /-- FK added inside a batch on a table in a named schema *without* `referent_schema`: the copy is re-pointed at
+      `<schema>.<referent>` while `_setup_referent` stubs the unqualified table → `NoReferencedTableError` at CREATE TABLE -/
+  unresolvedReferent : Bool := false
   deriving DecidableEq, Repr
 
 structure Index where
@@ -131,7 +134,7 @@ inductive BatchOp where
 inductive Err where
   -- Python-level
   | commandError | keyError | valueError | noSuchConstraint | noSuchIndex | needName | circular
-  | duplicateColumnPy
+  | duplicateColumnPy | noReferencedTable | noReferencedColumn
   -- SQLite
   | alreadyExists | noSuchColumn | noSuchTable | noSuchIndexDb | notNull | unique | check | addNotNull
   | duplicateColumn
@@ -142,7 +145,8 @@ inductive Err where
 def Err.toString : Err → String
   | .commandError => "commandError" | .keyError => "keyError" | .valueError => "valueError"
   | .noSuchConstraint => "noSuchConstraint" | .noSuchIndex => "noSuchIndex" | .needName => "needName"
-  | .circular => "circular" | .duplicateColumnPy => "duplicateColumnPy"
+  | .circular => "circular" | .duplicateColumnPy => "duplicateColumnPy" | .noReferencedTable => "noReferencedTable"
+  | .noReferencedColumn => "noReferencedColumn"
   | .alreadyExists => "alreadyExists" | .noSuchColumn => "noSuchColumn" | .noSuchTable => "noSuchTable"
   | .noSuchIndexDb => "noSuchIndexDb"
   | .notNull => "notNull" | .unique => "unique" | .check => "check" | .addNotNull => "addNotNull"
